@@ -679,6 +679,9 @@ type mediaSection struct {
 	sctpInit        []byte
 	matchExtensions map[string]int
 	rids            []*simulcastRid
+	// rejected is the remote m-section this section answers when we can't
+	// use it (unknown media type): it is mirrored with a zero port.
+	rejected *sdp.MediaDescription
 }
 
 func bundleMatchFromRemote(matchBundleGroup *string) func(mid string) bool {
@@ -730,6 +733,8 @@ func populateSDP(
 		bundleCount++
 	}
 
+	// candidates go into the first section that isn't a mirrored rejection
+	firstUsableSection := 0
 	for i, section := range mediaSections {
 		if section.data && len(section.transceivers) != 0 {
 			return nil, errSDPMediaSectionMediaDataChanInvalid
@@ -737,8 +742,30 @@ func populateSDP(
 			return nil, errSDPMediaSectionMultipleTrackInvalid
 		}
 
+		if section.rejected != nil {
+			descr.WithMedia(&sdp.MediaDescription{
+				MediaName: sdp.MediaName{
+					Media:   section.rejected.MediaName.Media,
+					Port:    sdp.RangedPort{Value: 0},
+					Protos:  section.rejected.MediaName.Protos,
+					Formats: section.rejected.MediaName.Formats,
+				},
+				ConnectionInformation: &sdp.ConnectionInformation{
+					NetworkType: "IN",
+					AddressType: "IP4",
+					Address: &sdp.Address{
+						Address: "0.0.0.0",
+					},
+				},
+				Attributes: []sdp.Attribute{{Key: sdp.AttrKeyMID, Value: section.id}},
+			})
+			firstUsableSection++
+
+			continue
+		}
+
 		shouldAddID := true
-		shouldAddCandidates := i == 0
+		shouldAddCandidates := i == firstUsableSection
 		if section.data {
 			if err = addDataMediaSection(
 				descr,
@@ -859,7 +886,8 @@ func getPeerDirection(media *sdp.MediaDescription) RTPTransceiverDirection {
 		}
 	}
 
-	return RTPTransceiverDirectionUnknown
+	// RFC 4566 Section 6: sendrecv is the default when no direction attribute is present.
+	return RTPTransceiverDirectionSendrecv
 }
 
 func extractBundleID(desc *sdp.SessionDescription) string {
